@@ -46,8 +46,12 @@
       successor before the evicted bucket is unlinked);
     * `no_parked_waiter_within_limit` + `WaitCmp` witness — loads parked at the soft limit with in-flight bytes: the
       gate, the trim loop and the wait loop share `withinSoft`; a parked load is never within the soft limit.
-  Still not proved: the full "exactly the chunks containing the seconds" statement for `invalidate` (needs sortedness/alignment of bucket chunk
-  lists as a trace invariant); both remain checked by the correspondence and the oracle.
+    * `invWalkF_exact`, `invBucket_exact`, `foldl_invBucket_exact`, `invalidate_marks_exactly_partial` — the merge walk
+      of `cache2Bucket.invalidate` (with its range pre-check) and the walk over all buckets mark exactly the chunks whose
+      start is among the batch's chunk starts, under sortedness/disjointness hypotheses on the state.
+  Still not proved (see `invalidate_marks_exactly_partial`): that those hypotheses are a trace invariant (sorted,
+  grid-aligned, disjoint bucket chunk lists) and that `invStarts` of a sorted batch is strictly increasing and equals the
+  set of chunk starts of its seconds; correspondence and the `stale-after-invalidate` oracle cover the gap.
   On a tree without fixes/C23-cache2-trim-wakeups-and-double-remove.diff the three decision-site theorems do not
   build (SH.Gen.C23 then says hardLimit / whenBelow / no guard) — that is the intended alarm; the `example`s
   next to them show the old behaviour violating the property on the states observed on the real code.
@@ -1933,5 +1937,282 @@ example : TSInv ts0 := by simp [TSInv, ts0]
 example : tsRun .gt ts0 tsWitness = { size := 4, inflight := 0, maxSize := 20, soft := 4, asleep := true, parked := 0 } := by decide
 example : tsRun .ge ts0 tsWitness = { size := 4, inflight := 0, maxSize := 20, soft := 4, asleep := true, parked := 1 } := by decide
 
+
+/-! ## `invalidate` marks exactly the chunks whose start is in the batch's chunk starts -/
+
+section InvExact
+open SH.TsCache.Place SH.TsCache.Wait
+
+theorem start_modAt_inv (now : Int) (tick i k : Nat) (cs : List Chunk) :
+    (getChunk (modAt (invalidateChunk now tick) i cs) k).start = (getChunk cs k).start := by
+  rcases getChunk_modAt (invalidateChunk now tick) i k cs with e | ⟨_, e⟩
+  · rw [e]
+  · rw [e]; rfl
+
+/-- the merge walk of `cache2Bucket.invalidate`: over strictly increasing chunk starts `ts` and a bucket whose chunk
+    list `is` is strictly increasing by start, exactly the chunks of the bucket whose start is in `ts` are marked -/
+theorem invWalkF_exact (now : Int) (tick : Nat) (fuel : Nat) (ts : List Int) (is : List Nat) (cs : List Chunk)
+    (hf : ts.length + is.length ≤ fuel) (hts : ts.Pairwise (· < ·))
+    (his : is.Pairwise (fun a b => (getChunk cs a).start < (getChunk cs b).start)) (hv : ∀ i ∈ is, i < cs.length) (j : Nat) :
+    getChunk (invWalkF now tick fuel ts is cs) j =
+      if j ∈ is ∧ (getChunk cs j).start ∈ ts then invalidateChunk now tick (getChunk cs j) else getChunk cs j := by
+  induction fuel generalizing ts is cs with
+  | zero =>
+    have h1 : ts = [] := List.eq_nil_of_length_eq_zero (by omega)
+    subst h1
+    simp [invWalkF]
+  | succ n ih =>
+    cases ts with
+    | nil => simp [invWalkF]
+    | cons t ts =>
+      cases is with
+      | nil => simp [invWalkF]
+      | cons i is =>
+        have hts' := List.pairwise_cons.mp hts
+        have his' := List.pairwise_cons.mp his
+        simp only [invWalkF]
+        split
+        · -- t < start i: t is the start of no chunk of the bucket
+          rename_i hlt
+          rw [ih ts (i :: is) cs (by simp at hf ⊢; omega) hts'.2 his hv]
+          have hne : ∀ k, k ∈ i :: is → (getChunk cs k).start ≠ t := by
+            intro k hk e
+            simp only [List.mem_cons] at hk
+            rcases hk with rfl | hk
+            · omega
+            · have := his'.1 k hk; omega
+          by_cases hj : j ∈ i :: is
+          · have := hne j hj
+            simp only [hj, true_and, List.mem_cons, this, false_or]
+          · simp only [hj, false_and, if_false]
+        · split
+          · -- start i < t: chunk i is not hit by any of the remaining starts
+            rename_i hge hlt
+            rw [ih (t :: ts) is cs (by simp at hf ⊢; omega) hts his'.2 (fun k hk => hv k (List.mem_cons_of_mem _ hk))]
+            have hni : (getChunk cs i).start ∉ t :: ts := by
+              intro hm
+              simp only [List.mem_cons] at hm
+              rcases hm with e | hm
+              · omega
+              · have := hts'.1 _ hm; omega
+            by_cases hj : j = i
+            · subst hj
+              have hnot : j ∉ is := by
+                intro hm; have := his'.1 j hm; omega
+              simp only [hnot, false_and, if_false, List.mem_cons, true_or, true_and, hni]
+            · simp only [List.mem_cons, hj, false_or]
+          · -- equal: chunk i is marked
+            rename_i hge hle
+            have he : (getChunk cs i).start = t := by omega
+            have his2 : is.Pairwise (fun a b => (getChunk (modAt (invalidateChunk now tick) i cs) a).start <
+                (getChunk (modAt (invalidateChunk now tick) i cs) b).start) := by
+              refine his'.2.imp ?_
+              intro a b hab
+              rw [start_modAt_inv, start_modAt_inv]; exact hab
+            rw [ih ts is _ (by simp at hf ⊢; omega) hts'.2 his2
+              (fun k hk => by rw [length_modAt]; exact hv k (List.mem_cons_of_mem _ hk))]
+            have hni : i ∉ is := by
+              intro hm; have := his'.1 i hm; omega
+            by_cases hj : j = i
+            · subst hj
+              have hnot : ¬ (j ∈ is ∧ (getChunk (modAt (invalidateChunk now tick) j cs) j).start ∈ ts) := fun h => hni h.1
+              simp only [hnot, if_false, List.mem_cons, true_or, true_and, he]
+              rw [getChunk_modAt_eq]
+              simp [hv j (List.mem_cons_self ..)]
+            · rw [getChunk_modAt_ne _ _ _ _ hj]
+              by_cases hm : j ∈ is
+              · have hst : (getChunk cs j).start ≠ t := by have := his'.1 j hm; omega
+                simp only [hm, true_and, List.mem_cons, hj, false_or, hst]
+              · simp only [hm, false_and, if_false, List.mem_cons, hj, false_or]
+
+
+theorem getLast_mem_ge_aux {l : List Int} (hs : l.Pairwise (· < ·)) : ∀ x ∈ l, ∀ y, l.getLast? = some y → x ≤ y := by
+  induction l with
+  | nil => intro x hx; cases hx
+  | cons a l ih =>
+    have hp := List.pairwise_cons.mp hs
+    intro x hx y hy
+    cases l with
+    | nil => simp at hx hy; omega
+    | cons b l =>
+      simp only [List.getLast?_cons_cons] at hy
+      simp only [List.mem_cons] at hx
+      rcases hx with rfl | hx
+      · have h1 := ih hp.2 b (List.mem_cons_self ..) y hy
+        have := hp.1 b (List.mem_cons_self ..)
+        omega
+      · exact ih hp.2 x (by simpa using hx) y hy
+
+theorem getLast_mem_ge {l : List Int} (hs : l.Pairwise (· < ·)) (x : Int) (hx : x ∈ l) (y : Int) (hy : l.getLast? = some y) : x ≤ y :=
+  getLast_mem_ge_aux hs x hx y hy
+
+/-- `cache2Bucket.invalidate` (range pre-check + merge walk) on a bucket whose chunk list is strictly increasing by
+    start, for strictly increasing chunk starts `ts`: exactly the bucket's chunks whose start is in `ts` are marked,
+    every other chunk of the store is untouched -/
+theorem invBucket_exact (now : Int) (tick : Nat) (ts : List Int) (cs : List Chunk) (b : Bucket)
+    (hts : ts.Pairwise (· < ·))
+    (his : b.cids.Pairwise (fun x y => (getChunk cs x).start < (getChunk cs y).start)) (hv : ∀ i ∈ b.cids, i < cs.length)
+    (j : Nat) :
+    getChunk (invBucket now tick ts cs b) j =
+      if j ∈ b.cids ∧ (getChunk cs j).start ∈ ts then invalidateChunk now tick (getChunk cs j) else getChunk cs j := by
+  unfold invBucket
+  split
+  · -- the pre-check says the ranges are disjoint: then no chunk start is in `ts`
+    rename_i hd
+    have hno : ¬ (j ∈ b.cids ∧ (getChunk cs j).start ∈ ts) := by
+      intro ⟨h1, h2⟩
+      unfold disjointRange at hd
+      cases htl : ts.getLast? with
+      | none => cases ts with
+        | nil => cases h2
+        | cons _ _ => simp at htl
+      | some tl =>
+        cases hth : ts.head? with
+        | none => cases ts with
+          | nil => cases h2
+          | cons _ _ => simp at hth
+        | some th =>
+          cases hch : b.cids.head? with
+          | none => cases hb : b.cids with
+            | nil => rw [hb] at h1; cases h1
+            | cons _ _ => rw [hb] at hch; simp at hch
+          | some ch =>
+            cases hcl : b.cids.getLast? with
+            | none => cases hb : b.cids with
+              | nil => rw [hb] at h1; cases h1
+              | cons _ _ => rw [hb] at hcl; simp at hcl
+            | some cl =>
+              simp only [htl, hth, hch, hcl, Bool.or_eq_true, decide_eq_true_eq] at hd
+              -- start ch ≤ start j ≤ start cl and th ≤ start j ≤ tl
+              have e1 : (getChunk cs j).start ≤ tl := getLast_mem_ge hts _ h2 tl htl
+              have e2 : th ≤ (getChunk cs j).start := by
+                cases ts with
+                | nil => cases h2
+                | cons a ts =>
+                  simp only [List.head?_cons, Option.some.injEq] at hth
+                  subst hth
+                  simp only [List.mem_cons] at h2
+                  rcases h2 with e | h2
+                  · omega
+                  · have := (List.pairwise_cons.mp hts).1 _ h2; omega
+              have e3 : (getChunk cs ch).start ≤ (getChunk cs j).start := by
+                cases hb : b.cids with
+                | nil => rw [hb] at h1; cases h1
+                | cons a as =>
+                  rw [hb] at hch his h1
+                  simp only [List.head?_cons, Option.some.injEq] at hch
+                  subst hch
+                  simp only [List.mem_cons] at h1
+                  rcases h1 with e | h1
+                  · rw [e]; omega
+                  · have := (List.pairwise_cons.mp his).1 _ h1; omega
+              have e4 : (getChunk cs j).start ≤ (getChunk cs cl).start := by
+                have hm : ((b.cids.map (fun i => (getChunk cs i).start))).Pairwise (· < ·) := by
+                  rw [List.pairwise_map]; exact his
+                have hl : (b.cids.map (fun i => (getChunk cs i).start)).getLast? = some (getChunk cs cl).start := by
+                  rw [List.getLast?_map, hcl]; rfl
+                exact getLast_mem_ge hm _ (List.mem_map_of_mem h1) _ hl
+              rcases hd with hd | hd <;> omega
+    simp only [hno, if_false]
+  · exact invWalkF_exact now tick _ ts b.cids cs (Nat.le_refl _) hts his hv j
+
+
+theorem invWalkF_length (now : Int) (tick fuel : Nat) (ts : List Int) (is : List Nat) (cs : List Chunk) :
+    (invWalkF now tick fuel ts is cs).length = cs.length := by
+  induction fuel generalizing ts is cs with
+  | zero => simp [invWalkF]
+  | succ n ih =>
+    cases ts with
+    | nil => simp [invWalkF]
+    | cons t ts =>
+      cases is with
+      | nil => simp [invWalkF]
+      | cons i is =>
+        simp only [invWalkF]
+        split
+        · exact ih ..
+        · split
+          · exact ih ..
+          · rw [ih, length_modAt]
+
+theorem invBucket_length (now : Int) (tick : Nat) (ts : List Int) (cs : List Chunk) (b : Bucket) :
+    (invBucket now tick ts cs b).length = cs.length := by
+  unfold invBucket; split
+  · rfl
+  · exact invWalkF_length ..
+
+/-- a bucket's chunk list is strictly increasing by chunk start and names chunks of the store -/
+def BucketSorted (cs : List Chunk) (b : Bucket) : Prop :=
+  b.cids.Pairwise (fun x y => (getChunk cs x).start < (getChunk cs y).start) ∧ ∀ i ∈ b.cids, i < cs.length
+
+theorem invBucket_start (now : Int) (tick : Nat) (ts : List Int) (cs : List Chunk) (b : Bucket) (hts : ts.Pairwise (· < ·))
+    (hb : BucketSorted cs b) (j : Nat) : (getChunk (invBucket now tick ts cs b) j).start = (getChunk cs j).start := by
+  rw [invBucket_exact now tick ts cs b hts hb.1 hb.2 j]
+  split <;> rfl
+
+/-- **the walk over all buckets of the shard** (`cache2Shard.invalidate` run to its end without interference): for
+    strictly increasing chunk starts `ts`, buckets with sorted chunk lists that share no chunk, a chunk is marked iff it
+    belongs to some bucket and its start is in `ts`; everything else is untouched -/
+theorem foldl_invBucket_exact (now : Int) (tick : Nat) (ts : List Int) (hts : ts.Pairwise (· < ·)) (bs : List Bucket)
+    (cs : List Chunk) (hs : ∀ b ∈ bs, BucketSorted cs b)
+    (hdis : bs.Pairwise (fun a b => ∀ i, i ∈ a.cids → i ∉ b.cids)) (j : Nat) :
+    getChunk (bs.foldl (invBucket now tick ts) cs) j =
+      if (∃ b ∈ bs, j ∈ b.cids) ∧ (getChunk cs j).start ∈ ts then invalidateChunk now tick (getChunk cs j) else getChunk cs j := by
+  induction bs generalizing cs with
+  | nil => simp
+  | cons b bs ih =>
+    have hb := hs b (List.mem_cons_self ..)
+    have hd := List.pairwise_cons.mp hdis
+    have hs1 : ∀ b' ∈ bs, BucketSorted (invBucket now tick ts cs b) b' := by
+      intro b' hb'
+      obtain ⟨p1, p2⟩ := hs b' (List.mem_cons_of_mem _ hb')
+      refine ⟨p1.imp ?_, fun i hi => by rw [invBucket_length]; exact p2 i hi⟩
+      intro x y hxy
+      rw [invBucket_start now tick ts cs b hts hb, invBucket_start now tick ts cs b hts hb]; exact hxy
+    simp only [List.foldl_cons]
+    rw [ih _ hs1 hd.2, invBucket_start now tick ts cs b hts hb, invBucket_exact now tick ts cs b hts hb.1 hb.2 j]
+    by_cases h1 : j ∈ b.cids
+    · have hno : ¬ ∃ b' ∈ bs, j ∈ b'.cids := by
+        intro ⟨b', hb', hj⟩; exact hd.1 b' hb' j h1 hj
+      by_cases h2 : (getChunk cs j).start ∈ ts
+      · have : (∃ b' ∈ b :: bs, j ∈ b'.cids) := ⟨b, List.mem_cons_self .., h1⟩
+        simp only [hno, false_and, if_false, h1, h2, and_self, if_true, this, true_and]
+      · simp only [h2, and_false, if_false]
+    · have hiff : (∃ b' ∈ b :: bs, j ∈ b'.cids) ↔ (∃ b' ∈ bs, j ∈ b'.cids) := by
+        constructor
+        · intro ⟨b', hb', hj⟩
+          simp only [List.mem_cons] at hb'
+          rcases hb' with rfl | hb'
+          · exact absurd hj h1
+          · exact ⟨b', hb', hj⟩
+        · intro ⟨b', hb', hj⟩; exact ⟨b', List.mem_cons_of_mem _ hb', hj⟩
+      simp only [h1, false_and, if_false, hiff]
+
+
+/-- **invalidate_marks_exactly_partial**: `cache2.invalidate` of a batch of seconds marks exactly the cached chunks whose
+    start is one of the chunk starts computed from the batch — every such chunk of every bucket, and no other chunk.
+    Proved for the model under hypotheses on the state: the chunk starts of the batch are strictly increasing, every
+    bucket's chunk list is strictly increasing by start, buckets share no chunk.
+    FULL STATEMENT (not proved): for every reachable state and every sorted batch `secs`, chunk `j` of a bucket is marked
+    iff `∃ sec ∈ secs, chunk.start ≤ sec·nsec < chunk.start + dur`.  Missing: (1) the trace invariant that bucket chunk
+    lists stay sorted, aligned to the chunk grid (`start % dur = 0`) and disjoint (`insertCid`, eviction, reset);
+    (2) `invStarts` of a sorted batch is strictly increasing and equals `{chunkStartOf (sec·nsec)}` (the boundary case is
+    `boundary_second_opens_chunk`, the general case needs the uniqueness of `t / dur`).  The walk over the buckets being
+    interleaved with evictions is `invalidate_walk_complete`; the freshness clause built on the marks is `freshness`. -/
+theorem invalidate_marks_exactly_partial (s : St) (secs : List Int) (now : Int)
+    (hts : (invStarts s.cfg secs none).Pairwise (· < ·)) (hs : ∀ b ∈ s.buckets, BucketSorted s.chunks b)
+    (hdis : s.buckets.Pairwise (fun a b => ∀ i, i ∈ a.cids → i ∉ b.cids)) (j : Nat) :
+    getChunk (opInv s secs now).chunks j =
+      if (∃ b ∈ s.buckets, j ∈ b.cids) ∧ (getChunk s.chunks j).start ∈ invStarts s.cfg secs none
+      then invalidateChunk now s.tick (getChunk s.chunks j) else getChunk s.chunks j :=
+  foldl_invBucket_exact now s.tick _ hts s.buckets s.chunks hs hdis j
+
+/-- non-vacuity: the hypotheses hold in the example state (two chunks of one bucket, batch [101, 102]) -/
+example : (invStarts cfg0 [101, 102] none).Pairwise (· < ·) := by decide
+example : ∀ b ∈ (run (init cfg0) [.get 1 1 0 false 100 104 200000000000, .fin 1 true 1 200000000001]).buckets,
+    BucketSorted (run (init cfg0) [.get 1 1 0 false 100 104 200000000000, .fin 1 true 1 200000000001]).chunks b := by
+  unfold BucketSorted; decide
+
+end InvExact
 
 end SH.Props.C23
